@@ -3,6 +3,7 @@
    program could name are reachable too), prints the outcome, and after every call checks that the
    same context still evaluates a probe and that its stack top is where it was.
    Protocol, one request per line:   <fn> <arg> ...
+     (utf8ref s<hex> c<k> | utf8set s<hex> c<k> h<char>: sexp_string_utf8_ref / sexp_string_utf8_set at a cursor INSIDE the string)
      arg:  f<dec> fixnum | c<dec> cursor | F = #f | s<hex> string with these bytes | b<hex> bytevector
            ("s-"/"b-" = empty) | h<dec> char | n = '()
    Output:  V <result>  |  E <kind>      result: s<hex> b<hex> f<dec> c<dec> ...   kind: type range user other
@@ -89,6 +90,13 @@ int main(int argc, char **argv) {
     else if (!strcmp(f[0], "makevector") && nf == 2) r = sexp_make_vector_op(ctx, NULL, 2, a, SEXP_ZERO);
     else if (!strcmp(f[0], "makebytes") && nf == 2) r = sexp_make_bytes_op(ctx, NULL, 2, a, SEXP_ZERO);
     else if (!strcmp(f[0], "fix2cur") && nf == 2) r = sexp_fixnum_to_string_cursor(a);
+    /* the character at a cursor inside the string, any bytes: value (as a fixnum) or exception */
+    else if (!strcmp(f[0], "utf8ref") && nf == 3) {
+      r = sexp_string_utf8_ref(ctx, a, b);
+      if (sexp_charp(r)) r = sexp_make_fixnum(sexp_unbox_character(r));
+    }
+    /* string-set! at a cursor inside the string: the string afterwards */
+    else if (!strcmp(f[0], "utf8set") && nf == 4) { sexp_string_utf8_set(ctx, a, b, c); r = a; }
     else if (!strcmp(f[0], "eval") && nf >= 2) {
       /* the embedding caller's view: evaluate source text, get a value or an exception object back */
       char *src = f[1] + strlen(f[1]) + 1;   /* not used: eval takes a hex-encoded program */
